@@ -464,8 +464,7 @@ theorem instants_never_collide (h : Hasher) (y m d tod nsec y' m' d' tod' nsec' 
 example : instantNs (9999, 12, 31) 86399 999999999 0 ≤ 254 * 10 ^ 18 ∧ ¬ instantNs (9999, 12, 31) 86399 999999999 0 ≤ 2 * 10 ^ 20 := by
   decide
 
-/-! ### what the parser accepts lies in that window (the date and time-of-day fields; the fraction and the zone of `parseRFC3339`
-are not yet carried through - `instant_in_window` takes their ranges as hypotheses) -/
+/-! ### what the parser accepts lies in that window (the date and time-of-day fields first) -/
 
 theorem digitVal_le (c : Char) (h : isDigit c = true) : digitVal c ≤ 9 := by
   unfold isDigit at h
@@ -579,5 +578,128 @@ theorem parseDate_in_window (cs : List Char) (t : Int) (h : parseDate cs = some 
 
 /-- not vacuous: a leap day parses -/
 example : (parseDate "2024-02-29".toList).isSome = true := by decide
+
+/-! ### … and the fraction and the zone: every literal `parseTime` accepts lies in the window, so accepted literals never collide -/
+
+theorem digitsVal_lt (ds : List Char) (acc : Nat) (h : ∀ c ∈ ds, isDigit c = true) :
+    digitsVal ds acc < (acc + 1) * 10 ^ ds.length := by
+  induction ds generalizing acc with
+  | nil => simp [digitsVal]
+  | cons c cs ih =>
+    have hc := digitVal_le c (h c (by simp))
+    have := ih (acc * 10 + digitVal c) (fun x hx => h x (by simp [hx]))
+    simp only [digitsVal, List.length_cons, Nat.pow_succ]
+    calc digitsVal cs (acc * 10 + digitVal c) < (acc * 10 + digitVal c + 1) * 10 ^ cs.length := this
+      _ ≤ ((acc + 1) * 10) * 10 ^ cs.length := Nat.mul_le_mul_right _ (by omega)
+      _ = (acc + 1) * (10 ^ cs.length * 10) := by rw [Nat.mul_assoc, Nat.mul_comm 10]
+
+theorem spanDigits_digits (cs : List Char) : ∀ c ∈ (spanDigits cs).1, isDigit c = true := by
+  induction cs with
+  | nil => simp [spanDigits]
+  | cons c cs ih =>
+    unfold spanDigits
+    split
+    · rename_i hc
+      intro x hx
+      simp only [List.mem_cons] at hx
+      rcases hx with rfl | hx
+      · exact hc
+      · exact ih x hx
+    · simp
+
+/-- the nanoseconds of a fraction are below a second -/
+theorem nanosOf_lt (ds : List Char) (h : ∀ c ∈ ds, isDigit c = true) : nanosOf ds < 1000000000 := by
+  unfold nanosOf
+  simp only
+  have hl : (ds.take 9).length ≤ 9 := by simp [List.length_take]; omega
+  have hd := digitsVal_lt (ds.take 9) 0 (fun c hc => h c (List.mem_of_mem_take hc))
+  simp only [Nat.zero_add, Nat.one_mul] at hd
+  have e : 10 ^ (ds.take 9).length * 10 ^ (9 - (ds.take 9).length) = 1000000000 := by
+    rw [← Nat.pow_add]
+    have : (ds.take 9).length + (9 - (ds.take 9).length) = 9 := by omega
+    rw [this]
+  calc digitsVal (ds.take 9) 0 * 10 ^ (9 - (ds.take 9).length)
+      < 10 ^ (ds.take 9).length * 10 ^ (9 - (ds.take 9).length) :=
+        Nat.mul_lt_mul_of_pos_right hd (Nat.pow_pos (by omega))
+    _ = 1000000000 := e
+
+/-- the zone offset the parser accepts is less than a day either way -/
+theorem parseZone_range (cs : List Char) (off : Int) (h : parseZone cs = some off) : -86400 < off ∧ off < 86400 := by
+  unfold parseZone at h
+  split at h
+  · simp at h; omega
+  · rename_i sg h1 h2 m1 m2
+    split at h
+    · simp only [Option.bind_eq_bind] at h
+      cases hh : (num2 h1 h2).bind (inRange · 0 23) with
+      | none => simp [hh] at h
+      | some a =>
+        cases hm : (num2 m1 m2).bind (inRange · 0 59) with
+        | none => simp [hh, hm] at h
+        | some b =>
+          simp [hh, hm] at h
+          obtain ⟨_, _, ha⟩ := Option.bind_eq_some_iff.mp hh
+          obtain ⟨_, _, hb⟩ := Option.bind_eq_some_iff.mp hm
+          have := inRange_spec _ _ _ _ ha
+          have := inRange_spec _ _ _ _ hb
+          split at h <;> omega
+    · simp at h
+  · simp at h
+
+/-- fraction and zone of an accepted dateTime: nanoseconds below a second, offset less than a day -/
+theorem fracZone_range (rest : List Char) (nsec : Nat) (off : Int) (h : fracZone rest = some (nsec, off)) :
+    nsec < 1000000000 ∧ -86400 < off ∧ off < 86400 := by
+  unfold fracZone at h
+  split at h
+  rename_i ns r hm
+  simp only [Option.map_eq_some_iff, Prod.mk.injEq] at h
+  obtain ⟨o, ho, rfl, rfl⟩ := h
+  refine ⟨?_, parseZone_range _ _ ho⟩
+  split at hm
+  · split at hm
+    · simp only [Prod.mk.injEq] at hm
+      rw [← hm.1]
+      exact nanosOf_lt _ (spanDigits_digits _)
+    · simp only [Prod.mk.injEq] at hm
+      omega
+  · simp only [Prod.mk.injEq] at hm
+    omega
+
+/-- every dateTime literal the parser accepts denotes an instant inside the window -/
+theorem parseRFC3339_in_window (cs : List Char) (t : Int) (h : parseRFC3339 cs = some t) :
+    -(63 * 10 ^ 18 : Int) ≤ t ∧ t ≤ 254 * 10 ^ 18 := by
+  unfold parseRFC3339 at h
+  split at h
+  · rename_i y1 y2 y3 y4 mo1 mo2 d1 d2 h1 h2 mi1 mi2 s1 s2 rest
+    split at h
+    · rename_i ymd tod nsec off hd ht hf
+      obtain ⟨y, m, d⟩ := ymd
+      simp only [Option.some.injEq] at h
+      subst h
+      have r := dateFields_range _ _ _ _ _ _ _ _ y m d hd
+      have rt := todFields_range _ _ _ _ _ _ tod ht
+      have rf := fracZone_range rest nsec off hf
+      exact instant_in_window y m d tod nsec off r.1 ⟨r.2.1, r.2.2.1⟩ ⟨r.2.2.2.1, r.2.2.2.2⟩ rt rf.1 rf.2
+    · simp at h
+  · simp at h
+
+/-- … and so does every literal `parseTime` accepts, bare date or dateTime -/
+theorem parseTime_in_window (s : String) (t : Int) (h : parseTime s = some t) :
+    -(63 * 10 ^ 18 : Int) ≤ t ∧ t ≤ 254 * 10 ^ 18 := by
+  unfold parseTime at h
+  simp only at h
+  split at h
+  · exact parseDate_in_window _ _ h
+  · exact parseRFC3339_in_window _ _ h
+
+/-- two accepted literals with the same encoding denote the same instant, for every prime above 4·10²⁰ -/
+theorem accepted_literals_never_collide (h : Hasher) (s₁ s₂ : String) (t₁ t₂ : Int) (x : Nat) (hp : 4 * 10 ^ 20 < h.prime)
+    (p1 : parseTime s₁ = some t₁) (p2 : parseTime s₂ = some t₂)
+    (e1 : enc h (.time t₁) = .ok x) (e2 : enc h (.time t₂) = .ok x) : t₁ = t₂ :=
+  time_inj_window h (-(63 * 10 ^ 18)) (254 * 10 ^ 18) _ _ x (by omega)
+    (parseTime_in_window s₁ t₁ p1) (parseTime_in_window s₂ t₂ p2) e1 e2
+
+/-- not vacuous: the last representable instant, written with the largest fraction and the most negative offset, is accepted -/
+example : (parseTime "9999-12-31T23:59:59.999999999-23:59").isSome = true := by decide
 
 end Gsp.Props.C04
